@@ -432,6 +432,7 @@ def model_dump(case, r):
     return coq_print(PID, COQ_IMPORTS, "Eval vm_compute in model_dump (%s)." % t)[-8000:]
 
 
+SRC_SPECS = ["chankey"]     # translator/specs/chankey.json -> Generated/Src_ChanKey.v (regenerated on every run)
 READY = True
 TECHNIQUE = ("Coq proof (refinement of a single store by the routed cluster, induction over scripts; permutation / "
              "disjunction argument for the iterator; cycle lemmas for the synchronizers) + model/impl correspondence + "
